@@ -24,4 +24,11 @@ TrueOffset == Min({d[f] : f \in 1..NF})
 SignAgrees == /\ (TrueOffset > Tol => Reported > 0)
               /\ (TrueOffset < -Tol => Reported < 0)
 AboveIsOffset == TrueOffset >= 0 => Reported = TrueOffset
+(* Named deviation (outside C19, which fixes only the SIGN below the surface): below the  *)
+(* surface the code does not report the vertical offset but the plane closest from below, *)
+(* |Reported| <= |TrueOffset|, e.g. plane distances (-4, -2) give -2 where the offset from  *)
+(* the surface is -4.  BelowIsOffset is expected to FAIL (configuration _belowvalue);     *)
+(* BelowIsBounded is what does hold.                                                      *)
+BelowIsOffset == TrueOffset < -Tol => Reported = TrueOffset
+BelowIsBounded == TrueOffset < -Tol => (TrueOffset <= Reported /\ Reported < 0)
 ==============================================================================
